@@ -121,6 +121,15 @@ theorem C10_valid_decoded (shape : Shape) (s : Int) (h : 200 ≤ s ∧ s < 300) 
   rw [call_2xx shape s .valid h]
   cases shape <;> simp_all [tail, decodeOf]
 
+/-- 2xx whose body is lost in transit: never a clean (nil-error) outcome for a method with a result —
+    the read error comes back next to the response, the result is nil -/
+theorem C10_broken_not_clean (shape : Shape) (s : Int) (h : 200 ≤ s ∧ s < 300) (hs : shape ≠ .none) :
+    call shape (.resp s .broken) = ⟨.nil, true, some ⟨.decode, false, false⟩⟩ ∧
+    obs (call shape (.resp s .broken)) = spec shape (.resp s .broken) := by
+  refine ⟨?_, C10_model_eq_spec shape (.resp s .broken) (by simp [WF]; omega)⟩
+  rw [call_2xx shape s .broken h]
+  cases shape <;> simp_all [tail, decodeOf]
+
 /-- finding witness: a redirect refused by the client's CheckRedirect policy — `client.Do` returns the
     302 response AND the policy's error; the generated method returns the error but a nil response -/
 theorem C10_F_respWithError_witness :
